@@ -46,9 +46,38 @@ fn base_program(rng: &mut Rng) -> Vec<Node> {
     let fwd_equ = names.fresh("eq", rng);
     let fwd_lbl = names.fresh("lbl", rng);
     let late_macro = names.fresh("mac", rng);
+    let mut orgs = [0i64; 3];
     for _ in 0..n {
         marker += 1;
-        match rng.below(14) {
+        match rng.below(17) {
+            // origins in all three segments: in the data and EEPROM segment the `.org` comes behind a first
+            // item, so that a cut between the two leaves the included file in another segment than it began
+            // in, and the including file goes on with `.org` without naming the segment again
+            14 if orgs[0] < 3 => {
+                orgs[0] += 1;
+                v.push(Node::Org(E::Lit(0x100 * orgs[0], 1)));
+                v.push(Node::Data { label: None, width: 2, ops: vec![DataOp::E(E::Lit(0x7100 + marker, 1))] });
+            }
+            15 if orgs[1] < 3 => {
+                orgs[1] += 1;
+                v.push(Node::Seg(Seg::Data));
+                let l = names.fresh("var", rng);
+                v.push(Node::Reserve { label: Some(l.clone()), n: E::Lit(1 + rng.below(3) as i64, 0) });
+                labels.push(l);
+                v.push(Node::Org(E::Lit(0x180 + 0x80 * orgs[1], 1)));
+                let l = names.fresh("var", rng);
+                v.push(Node::Reserve { label: Some(l.clone()), n: E::Lit(2, 0) });
+                labels.push(l);
+                v.push(Node::Seg(Seg::Code));
+            }
+            16 if orgs[2] < 3 => {
+                orgs[2] += 1;
+                v.push(Node::Seg(Seg::Eeprom));
+                v.push(Node::Data { label: None, width: 1, ops: vec![DataOp::E(E::Lit(marker % 256, 0))] });
+                v.push(Node::Org(E::Lit(0x40 * orgs[2], 1)));
+                v.push(Node::Data { label: None, width: 1, ops: vec![DataOp::E(E::Lit((marker + 1) % 256, 0))] });
+                v.push(Node::Seg(Seg::Code));
+            }
             0 | 1 => {
                 let n = names.fresh("eq", rng);
                 v.push(Node::Equ(n.clone(), E::Lit(rng.range(0, 5000), 0)));
